@@ -37,6 +37,8 @@ class World:
                               "__bases__": ("Variable",)}) for x in "AB"}
         self.hedges = {"very": MObj("Very", {"__id__": "hVery", "name": Tok("hedge", tag="very"), "__bases__": ("Hedge",)}),
                        "any": MObj("Any", {"__id__": "hAny", "name": Tok("any"), "__bases__": ("Hedge",)})}
+        # the summary of the hedges a proposition already has when the next token is read: a new hedge goes after it
+        self.prev_hedge = MObj("Very", {"__id__": "hEarlier", "name": Tok("hedge", tag="very"), "__bases__": ("Hedge",)})
         vs = [self.vars["A"], self.vars["B"]]
         # the engine also has a rule block (with a rule: it is not empty) whose name is a token class of its own: a name that is not a variable's
         self.block = MObj("RuleBlock", {"__id__": "block", "name": Tok("block"), "rules": [MObj("Rule", {"__id__": "r0"})], "__len__": 1, "enabled": True})
@@ -195,7 +197,7 @@ def loader(check: Check, qual: str, rule: str = "LD") -> None:
                     else:
                         env[k] = [MObj("Leaf", {"n": i}) for i in range(len(v))]
                 elif isinstance(v, MObj) and v.cls == "Proposition":
-                    env[k] = MObj("Proposition", {"variable": v.fields.get("variable"), "hedges": [], "term": None})
+                    env[k] = MObj("Proposition", {"variable": v.fields.get("variable"), "hedges": [w.prev_hedge] if v.fields.get("hedges") else [], "term": None})
                 elif isinstance(v, MObj) and v.cls in ("Operator", "Leaf"):
                     env[k] = None
 
@@ -301,6 +303,7 @@ def loader(check: Check, qual: str, rule: str = "LD") -> None:
                 env[params[0]] = MObj(selfobj.cls, dict(snapshot(selfobj.fields, {})))
                 before_stacks = [list(s_) for s_ in stacks(env)]
                 props_before = {k: env.get(k) for k in state_names if isinstance(env.get(k), MObj) and env[k].cls == "Proposition"}
+                hedges_before = {id(pr): [key_of(h)[1] for h in pr.fields.get("hedges", []) if isinstance(h, MObj)] for pr in props_before.values()}
                 del created[:]
                 sp.bind(env, tok)
                 ex.steps = 0
@@ -352,8 +355,9 @@ def loader(check: Check, qual: str, rule: str = "LD") -> None:
                     note("proposition", f"{what}: creates a proposition where none is specified", None)
                 target = new_props[0] if new_props else (cur_props[0] if cur_props else None)
                 hedges_now = [key_of(h)[1] for pr in ([target] if target is not None else []) for h in pr.fields.get("hedges", []) if isinstance(h, MObj)]
-                if hedges_now != obs.get("hedges", []):
-                    note("hedges", f"{what}: the proposition gets the hedges {hedges_now}, specified {obs.get('hedges', [])} (appended in reading order)", None)
+                hedges_want = (hedges_before.get(id(target), []) if target is not None else []) + obs.get("hedges", [])
+                if hedges_now != hedges_want:
+                    note("hedges", f"{what}: the proposition's hedges become {hedges_now}, specified {hedges_want} (appended in reading order, after the earlier ones)", None)
                 term_now = target.fields.get("term") if target is not None else None
                 tk = key_of(term_now)[1] if isinstance(term_now, MObj) else None
                 if tk != obs.get("term"):
